@@ -234,57 +234,53 @@ Proof.
   split; [unfold tokstep; rewrite Hg, H0; reflexivity | apply IH, Hg].
 Qed.
 
-Lemma token_step_facts fixed d uid t tok :
-  token_step fixed d uid = (t, tok) ->
+Lemma token_step_facts d uid t tok :
+  token_step d uid = (t, tok) ->
   chain tokstep d t /\ d_kv (last_or t d) = d_kv d /\ d_token (last_or t d) = Some tok.
 Proof.
-  destruct fixed; cbn [token_step]; unfold token_fix, token_cur; intro H.
-  - (* repaired *)
-    assert (W : forall t tok,
-      (map (fun p => set_tmp d (Some p)) (prefixes uid) ++ [mkDisk (Some uid) None (d_kv d)], uid) = (t, tok) ->
-      chain tokstep d t /\ d_kv (last_or t d) = d_kv d /\ d_token (last_or t d) = Some tok).
-    { intros t' tok' E. inversion E; subst t' tok'. split; [|split].
-      - apply chain_app.
-        + apply (chain_tokstep_map (fun p => set_tmp d (Some p)) d); reflexivity.
-        + cbn [chain]. split; [|exact I]. unfold tokstep. rewrite last_or_map_prefixes. reflexivity.
-      - rewrite last_or_app. reflexivity.
-      - rewrite last_or_app. reflexivity. }
-    destruct (d_token d) as [b|] eqn:E.
-    + destruct (token_wf b) eqn:Ew.
-      * inversion H; subst t tok. cbn [chain last_or]. repeat split. exact E.
-      * apply W, H.
-    + apply W, H.
-  - (* as it is *)
-    destruct (d_token d) as [b|] eqn:E.
+  unfold token_step; intro H.
+  assert (W : forall t tok,
+    (map (fun p => set_tmp d (Some p)) (prefixes uid) ++ [mkDisk (Some uid) None (d_kv d)], uid) = (t, tok) ->
+    chain tokstep d t /\ d_kv (last_or t d) = d_kv d /\ d_token (last_or t d) = Some tok).
+  { intros t' tok' E. inversion E; subst t' tok'. split; [|split].
+    - apply chain_app.
+      + apply (chain_tokstep_map (fun p => set_tmp d (Some p)) d); reflexivity.
+      + cbn [chain]. split; [|exact I]. unfold tokstep. rewrite last_or_map_prefixes. reflexivity.
+    - rewrite last_or_app. reflexivity.
+    - rewrite last_or_app. reflexivity. }
+  destruct (d_token d) as [b|] eqn:E.
+  - destruct (token_wf b) eqn:Ew.
     + inversion H; subst t tok. cbn [chain last_or]. repeat split. exact E.
-    + inversion H; subst t tok. split; [|split].
-      * apply (chain_tokstep_map (fun p => set_token d (Some p)) d); reflexivity.
-      * rewrite last_or_map_prefixes. reflexivity.
-      * rewrite last_or_map_prefixes. reflexivity.
+    + apply W, H.
+  - apply W, H.
 Qed.
 
-Lemma token_adopt fixed d uid b :
-  d_token d = Some b -> (fixed = true -> token_wf b = true) -> token_step fixed d uid = ([], b).
-Proof.
-  intros E Hw. destruct fixed; cbn [token_step]; unfold token_fix, token_cur; rewrite E.
-  - rewrite (Hw eq_refl). reflexivity.
-  - reflexivity.
-Qed.
+Lemma token_adopt d uid b :
+  d_token d = Some b -> token_wf b = true -> token_step d uid = ([], b).
+Proof. intros E Hw. unfold token_step. rewrite E, Hw. reflexivity. Qed.
 
-Lemma token_fix_wf d uid : token_wf uid = true -> token_wf (snd (token_fix d uid)) = true.
+Lemma token_step_wf d uid : token_wf uid = true -> token_wf (snd (token_step d uid)) = true.
 Proof.
-  intro H. unfold token_fix. destruct (d_token d) as [b|]; [|exact H].
+  intro H. unfold token_step. destruct (d_token d) as [b|]; [|exact H].
   destruct (token_wf b) eqn:E; [exact E | exact H].
 Qed.
 
-(* ---------- one start ---------- *)
-Lemma start_unfold fixed f d cfg :
-  exists t0 tok t1 its,
-    token_step fixed d (f_token f) = (t0, tok) /\
-    run_svcs f (last_or t0 d) cfg = (t1, its) /\
-    start fixed f d cfg = (t0 ++ t1, mkId tok its).
+(* a file that does not hold a well-formed id is replaced by the fresh id *)
+Lemma token_step_heals d uid :
+  (forall b, d_token d = Some b -> token_wf b = false) -> snd (token_step d uid) = uid.
 Proof.
-  unfold start. destruct (token_step fixed d (f_token f)) as [t0 tok] eqn:E0.
+  intro H. unfold token_step. destruct (d_token d) as [b|]; [|reflexivity].
+  rewrite (H b eq_refl). reflexivity.
+Qed.
+
+(* ---------- one start ---------- *)
+Lemma start_unfold f d cfg :
+  exists t0 tok t1 its,
+    token_step d (f_token f) = (t0, tok) /\
+    run_svcs f (last_or t0 d) cfg = (t1, its) /\
+    start f d cfg = (t0 ++ t1, mkId tok its).
+Proof.
+  unfold start. destruct (token_step d (f_token f)) as [t0 tok] eqn:E0.
   destruct (run_svcs f (last_or t0 d) cfg) as [t1 its] eqn:E1.
   exists t0, tok, t1, its. split; [reflexivity | split; [exact E1 | reflexivity]].
 Qed.
@@ -298,10 +294,10 @@ Proof.
   - split; assumption.
 Qed.
 
-Lemma start_chain fixed f d cfg : chain (step f) d (fst (start fixed f d cfg)).
+Lemma start_chain f d cfg : chain (step f) d (fst (start f d cfg)).
 Proof.
-  destruct (start_unfold fixed f d cfg) as [t0 [tok [t1 [its [E0 [E1 ->]]]]]]. cbn [fst].
-  destruct (token_step_facts _ _ _ _ _ E0) as [A0 _].
+  destruct (start_unfold f d cfg) as [t0 [tok [t1 [its [E0 [E1 ->]]]]]]. cbn [fst].
+  destruct (token_step_facts _ _ _ _ E0) as [A0 _].
   destruct (run_svcs_facts _ _ _ _ _ E1) as [A1 _].
   apply chain_app.
   - apply (chain_weaken tokstep); [intros a b H; right; exact H | exact A0].
@@ -309,115 +305,114 @@ Proof.
 Qed.
 
 (* the token in use is what the token file holds once the start has completed *)
-Lemma start_token_persisted fixed f d cfg :
-  d_token (after fixed f d cfg) = Some (id_token (ident fixed f d cfg)).
+Lemma start_token_persisted f d cfg :
+  d_token (after f d cfg) = Some (id_token (ident f d cfg)).
 Proof.
-  unfold after, ident. destruct (start_unfold fixed f d cfg) as [t0 [tok [t1 [its [E0 [E1 ->]]]]]].
+  unfold after, ident. destruct (start_unfold f d cfg) as [t0 [tok [t1 [its [E0 [E1 ->]]]]]].
   cbn [fst snd id_token]. rewrite last_or_app.
-  destruct (token_step_facts _ _ _ _ _ E0) as [_ [_ T]].
+  destruct (token_step_facts _ _ _ _ E0) as [_ [_ T]].
   destruct (run_svcs_facts _ _ _ _ _ E1) as [A1 _].
   destruct (chain_kvstep_files _ _ _ A1) as [[F _] _]. rewrite F. exact T.
 Qed.
 
 (* the items in use are what the store holds once the start has completed *)
-Lemma start_items_persisted fixed f d cfg it v :
-  In (it, v) (id_items (ident fixed f d cfg)) -> kv_get (d_kv (after fixed f d cfg)) it = Some v.
+Lemma start_items_persisted f d cfg it v :
+  In (it, v) (id_items (ident f d cfg)) -> kv_get (d_kv (after f d cfg)) it = Some v.
 Proof.
-  unfold after, ident. destruct (start_unfold fixed f d cfg) as [t0 [tok [t1 [its [E0 [E1 ->]]]]]].
+  unfold after, ident. destruct (start_unfold f d cfg) as [t0 [tok [t1 [its [E0 [E1 ->]]]]]].
   cbn [fst snd id_items]. rewrite last_or_app.
   destruct (run_svcs_facts _ _ _ _ _ E1) as [_ [B1 _]]. apply B1.
 Qed.
 
 (* an item already stored is the one used *)
-Lemma start_items_adopted fixed f d cfg it v w :
-  In (it, v) (id_items (ident fixed f d cfg)) -> kv_get (d_kv d) it = Some w -> v = w.
+Lemma start_items_adopted f d cfg it v w :
+  In (it, v) (id_items (ident f d cfg)) -> kv_get (d_kv d) it = Some w -> v = w.
 Proof.
-  unfold ident. destruct (start_unfold fixed f d cfg) as [t0 [tok [t1 [its [E0 [E1 ->]]]]]].
+  unfold ident. destruct (start_unfold f d cfg) as [t0 [tok [t1 [its [E0 [E1 ->]]]]]].
   cbn [snd id_items]. intros Hin Hg.
-  destruct (token_step_facts _ _ _ _ _ E0) as [_ [K _]].
+  destruct (token_step_facts _ _ _ _ E0) as [_ [K _]].
   destruct (run_svcs_facts _ _ _ _ _ E1) as [_ [_ C1]].
   apply (C1 it v w Hin). rewrite K. exact Hg.
 Qed.
 
-Lemma start_ext fixed f d cfg d' : In d' (crash_states fixed f d cfg) -> kvext d d'.
+Lemma start_ext f d cfg d' : In d' (crash_states f d cfg) -> kvext d d'.
 Proof.
   unfold crash_states. intros [<- | Hin]; [apply kvext_refl|].
-  destruct (chain_rel (step f) kvext d (fst (start fixed f d cfg)) kvext_refl) as [A _].
+  destruct (chain_rel (step f) kvext d (fst (start f d cfg)) kvext_refl) as [A _].
   - intros a b c; apply kvext_trans_step.
   - apply start_chain.
   - rewrite Forall_forall in A. apply A, Hin.
 Qed.
 
-Lemma stored_items_kept fixed f d cfg d' it w :
-  In d' (crash_states fixed f d cfg) -> kv_get (d_kv d) it = Some w -> kv_get (d_kv d') it = Some w.
-Proof. intro H. exact (start_ext fixed f d cfg d' H it w). Qed.
+Lemma stored_items_kept f d cfg d' it w :
+  In d' (crash_states f d cfg) -> kv_get (d_kv d) it = Some w -> kv_get (d_kv d') it = Some w.
+Proof. intro H. exact (start_ext f d cfg d' H it w). Qed.
 
-Lemma after_in_crash_states fixed f d cfg : In (after fixed f d cfg) (crash_states fixed f d cfg).
+Lemma after_in_crash_states f d cfg : In (after f d cfg) (crash_states f d cfg).
 Proof. unfold after, crash_states. apply last_or_In. Qed.
 
-Lemma start_token_adopted fixed f d cfg b :
-  d_token d = Some b -> (fixed = true -> token_wf b = true) -> id_token (ident fixed f d cfg) = b.
+Lemma start_token_adopted f d cfg b :
+  d_token d = Some b -> token_wf b = true -> id_token (ident f d cfg) = b.
 Proof.
-  intros E Hw. unfold ident, start. rewrite (token_adopt fixed d (f_token f) b E Hw).
+  intros E Hw. unfold ident, start. rewrite (token_adopt d (f_token f) b E Hw).
   destruct (run_svcs f (last_or [] d) cfg). reflexivity.
 Qed.
 
 (* ---------- histories of completed starts ---------- *)
-Lemma runs_token_const fixed : forall h d b,
-  d_token d = Some b -> (fixed = true -> token_wf b = true) ->
-  Forall (fun id => id_token id = b) (runs fixed d h).
+Lemma runs_token_const : forall h d b,
+  d_token d = Some b -> token_wf b = true ->
+  Forall (fun id => id_token id = b) (runs d h).
 Proof.
   induction h as [|[f cfg] r IH]; intros d b E Hw; cbn [runs]; [constructor|].
-  pose proof (start_token_adopted fixed f d cfg b E Hw) as Ht.
+  pose proof (start_token_adopted f d cfg b E Hw) as Ht.
   constructor; [exact Ht|].
   apply IH; [|exact Hw]. rewrite start_token_persisted, Ht. reflexivity.
 Qed.
 
-Lemma ident_token_wf_fixed f d cfg : token_wf (f_token f) = true -> token_wf (id_token (ident true f d cfg)) = true.
+Lemma ident_token_wf f d cfg : token_wf (f_token f) = true -> token_wf (id_token (ident f d cfg)) = true.
 Proof.
-  intro H. unfold ident, start. cbn [token_step].
-  pose proof (token_fix_wf d (f_token f) H) as W.
-  destruct (token_fix d (f_token f)) as [t0 tok]. cbn [snd] in W.
+  intro H. unfold ident, start.
+  pose proof (token_step_wf d (f_token f) H) as W.
+  destruct (token_step d (f_token f)) as [t0 tok]. cbn [snd] in W.
   destruct (run_svcs f (last_or t0 d) cfg). exact W.
 Qed.
 
-Lemma token_stable fixed d h id1 rest :
-  (fixed = true -> Forall (fun fc => token_wf (f_token (fst fc)) = true) h) ->
-  runs fixed d h = id1 :: rest -> Forall (fun id => id_token id = id_token id1) rest.
+Lemma token_stable d h id1 rest :
+  Forall (fun fc => token_wf (f_token (fst fc)) = true) h ->
+  runs d h = id1 :: rest -> Forall (fun id => id_token id = id_token id1) rest.
 Proof.
   intros Hf H. destruct h as [|[f cfg] r]; cbn [runs] in H; [discriminate H|].
   inversion H; subst id1 rest. apply runs_token_const.
   - apply start_token_persisted.
-  - intro Efix. subst fixed. apply ident_token_wf_fixed.
-    pose proof (Hf eq_refl) as HF. inversion HF; subst. assumption.
+  - apply ident_token_wf. inversion Hf; subst. assumption.
 Qed.
 
-Lemma runs_items_adopted fixed : forall h d id it v w,
-  In id (runs fixed d h) -> In (it, v) (id_items id) -> kv_get (d_kv d) it = Some w -> v = w.
+Lemma runs_items_adopted : forall h d id it v w,
+  In id (runs d h) -> In (it, v) (id_items id) -> kv_get (d_kv d) it = Some w -> v = w.
 Proof.
   induction h as [|[f cfg] r IH]; intros d id it v w Hid Hin Hg; cbn [runs] in Hid; [contradiction|].
   destruct Hid as [<- | Hid].
-  - apply (start_items_adopted fixed f d cfg it v w Hin Hg).
+  - apply (start_items_adopted f d cfg it v w Hin Hg).
   - apply (IH _ id it v w Hid Hin).
-    apply (start_ext fixed f d cfg); [apply after_in_crash_states | exact Hg].
+    apply (start_ext f d cfg); [apply after_in_crash_states | exact Hg].
 Qed.
 
-Lemma items_stable fixed : forall h d i j idi idj it v w,
-  i <= j -> nth_error (runs fixed d h) i = Some idi -> nth_error (runs fixed d h) j = Some idj ->
+Lemma items_stable : forall h d i j idi idj it v w,
+  i <= j -> nth_error (runs d h) i = Some idi -> nth_error (runs d h) j = Some idj ->
   In (it, v) (id_items idi) -> In (it, w) (id_items idj) -> v = w.
 Proof.
   induction h as [|[f cfg] r IH]; intros d i j idi idj it v w Hij Hi Hj Hv Hw; cbn [runs] in *.
   - destruct i; discriminate Hi.
   - destruct i as [|i].
     + cbn [nth_error] in Hi. inversion Hi; subst idi.
-      pose proof (start_items_persisted fixed f d cfg it v Hv) as Pv.
+      pose proof (start_items_persisted f d cfg it v Hv) as Pv.
       destruct j as [|j].
       * cbn [nth_error] in Hj. inversion Hj; subst idj.
-        pose proof (start_items_persisted fixed f d cfg it w Hw) as Pw. congruence.
+        pose proof (start_items_persisted f d cfg it w Hw) as Pw. congruence.
       * cbn [nth_error] in Hj. apply nth_error_In in Hj. symmetry.
-        apply (runs_items_adopted fixed r _ idj it w v Hj Hw Pv).
+        apply (runs_items_adopted r _ idj it w v Hj Hw Pv).
     + destruct j as [|j]; [lia|]. cbn [nth_error] in Hi, Hj.
-      apply (IH (after fixed f d cfg) i j idi idj it v w); [lia | assumption..].
+      apply (IH (after f d cfg) i j idi idj it v w); [lia | assumption..].
 Qed.
 
 (* ---------- well-formedness of the stored items at every crash point ---------- *)
@@ -471,12 +466,12 @@ Section KV.
     unfold tokstep in H. unfold kv_ok in *. rewrite H. exact Hd.
   Qed.
 
-  Lemma crash_states_ok fixed f d cfg d' :
-    fresh_ok f -> kv_ok d -> In d' (crash_states fixed f d cfg) -> kv_ok d' /\ kvext d d'.
+  Lemma crash_states_ok f d cfg d' :
+    fresh_ok f -> kv_ok d -> In d' (crash_states f d cfg) -> kv_ok d' /\ kvext d d'.
   Proof.
-    intros Hf Hd Hin. split; [|exact (start_ext fixed f d cfg d' Hin)].
+    intros Hf Hd Hin. split; [|exact (start_ext f d cfg d' Hin)].
     unfold crash_states in Hin. destruct Hin as [<- | Hin]; [exact Hd|].
-    destruct (chain_inv (step f) kv_ok d (fst (start fixed f d cfg))) as [A _].
+    destruct (chain_inv (step f) kv_ok d (fst (start f d cfg))) as [A _].
     - intros a b Ha Hab. exact (step_ok f a b Hf Ha Hab).
     - exact Hd.
     - apply start_chain.
@@ -486,46 +481,48 @@ Section KV.
   (* after a kill anywhere in a start, the next completed start uses well-formed items,
      each certificate matching the key in use, and keeps every item the killed start had
      stored *)
-  Lemma items_crash_safe fixed f d cfg d' f' cfg' :
-    fresh_ok f -> fresh_ok f' -> kv_ok d -> In d' (crash_states fixed f d cfg) ->
-    let id := ident fixed f' d' cfg' in
+  Lemma items_crash_safe f d cfg d' f' cfg' :
+    fresh_ok f -> fresh_ok f' -> kv_ok d -> In d' (crash_states f d cfg) ->
+    let id := ident f' d' cfg' in
     (forall it v, In (it, v) (id_items id) -> wfk it v = true) /\
     (forall c kk v, key_of c = Some kk -> In (c, v) (id_items id) ->
-       exists kb, kv_get (d_kv (after fixed f' d' cfg')) kk = Some kb /\ pairs v kb = true) /\
+       exists kb, kv_get (d_kv (after f' d' cfg')) kk = Some kb /\ pairs v kb = true) /\
     (forall it v w, kv_get (d_kv d') it = Some w -> In (it, v) (id_items id) -> v = w) /\
-    kv_ok (after fixed f' d' cfg').
+    kv_ok (after f' d' cfg').
   Proof.
     intros Hf Hf' Hd Hin id.
-    destruct (crash_states_ok fixed f d cfg d' Hf Hd Hin) as [Hd' _].
-    destruct (crash_states_ok fixed f' d' cfg' _ Hf' Hd' (after_in_crash_states fixed f' d' cfg')) as [[W P] _].
+    destruct (crash_states_ok f d cfg d' Hf Hd Hin) as [Hd' _].
+    destruct (crash_states_ok f' d' cfg' _ Hf' Hd' (after_in_crash_states f' d' cfg')) as [[W P] _].
     split; [|split; [|split; [|split; assumption]]].
     - intros it v Hi. apply (W it v). apply start_items_persisted, Hi.
     - intros c kk v Hc Hi. apply (P c kk v Hc). apply start_items_persisted, Hi.
-    - intros it v w Hg Hi. apply (start_items_adopted fixed f' d' cfg' it v w Hi Hg).
+    - intros it v w Hg Hi. apply (start_items_adopted f' d' cfg' it v w Hi Hg).
   Qed.
 End KV.
 
 (* ---------- the token at every crash point ---------- *)
-Definition token_settled (d : disk) : Prop :=
-  d_token d = None \/ exists t, d_token d = Some t /\ token_wf t = true.
+(* full statement for the token: whatever state the disk was in before a start (no token
+   file, an established token, or a legacy empty / cut-short / otherwise malformed file)
+   and wherever that start is killed, the next completed start uses a well-formed token
+   and persists it, every later start of any history keeps it, and a well-formed token
+   established before the killed start is the one used *)
+Definition token_crash_safe : Prop :=
+  forall f d cfg d' f' cfg' h,
+    token_wf (f_token f) = true -> token_wf (f_token f') = true ->
+    Forall (fun fc => token_wf (f_token (fst fc)) = true) h ->
+    In d' (crash_states f d cfg) ->
+    let tok := id_token (ident f' d' cfg') in
+    token_wf tok = true /\
+    d_token (after f' d' cfg') = Some tok /\
+    Forall (fun id => id_token id = tok) (runs (after f' d' cfg') h) /\
+    (forall t, d_token d = Some t -> token_wf t = true -> tok = t).
 
-(* full statement for the token: whatever on-disk state a kill leaves, the next completed
-   start uses a well-formed token, persists it, and an identity established before the
-   killed start is the one used *)
-Definition token_crash_safe (fixed : bool) : Prop :=
-  forall f d cfg d' f' cfg',
-    token_wf (f_token f) = true -> token_wf (f_token f') = true -> token_settled d ->
-    In d' (crash_states fixed f d cfg) ->
-    token_wf (id_token (ident fixed f' d' cfg')) = true /\
-    d_token (after fixed f' d' cfg') = Some (id_token (ident fixed f' d' cfg')) /\
-    (forall t, d_token d = Some t -> token_wf t = true -> id_token (ident fixed f' d' cfg') = t).
-
-(* states of the token file along a start of the repaired code *)
-Lemma token_fix_states d uid t tok d' :
-  token_fix d uid = (t, tok) -> In d' t ->
+(* states of the token file along a start *)
+Lemma token_step_states d uid t tok d' :
+  token_step d uid = (t, tok) -> In d' t ->
   d_token d' = d_token d \/ (d_token d' = Some uid /\ tok = uid /\ (forall b, d_token d = Some b -> token_wf b = false)).
 Proof.
-  unfold token_fix. intros H Hin.
+  unfold token_step. intros H Hin.
   assert (W : forall t tok, (map (fun p => set_tmp d (Some p)) (prefixes uid) ++ [mkDisk (Some uid) None (d_kv d)], uid) = (t, tok) ->
               In d' t -> d_token d' = d_token d \/ (d_token d' = Some uid /\ tok = uid)).
   { intros t' tok' E Hi. inversion E; subst t' tok'. apply in_app_or in Hi. destruct Hi as [Hi | [<- | []]].
@@ -540,15 +537,16 @@ Proof.
     split; [exact A | split; [exact B|]]. intros b' Hb'. discriminate Hb'.
 Qed.
 
-Lemma crash_state_token_fixed f d cfg d' :
-  In d' (crash_states true f d cfg) ->
+(* the token file is, at every crash point, what it was before the start or the complete
+   fresh id (the latter only when there was no well-formed token before) - never a part *)
+Lemma crash_state_token f d cfg d' :
+  In d' (crash_states f d cfg) ->
   d_token d' = d_token d \/ (d_token d' = Some (f_token f) /\ (forall b, d_token d = Some b -> token_wf b = false)).
 Proof.
   unfold crash_states. intros [<- | Hin]; [left; reflexivity|].
-  destruct (start_unfold true f d cfg) as [t0 [tok [t1 [its [E0 [E1 E]]]]]]. rewrite E in Hin. cbn [fst] in Hin.
-  cbn [token_step] in E0.
+  destruct (start_unfold f d cfg) as [t0 [tok [t1 [its [E0 [E1 E]]]]]]. rewrite E in Hin. cbn [fst] in Hin.
   apply in_app_or in Hin. destruct Hin as [Hin | Hin].
-  - destruct (token_fix_states d (f_token f) t0 tok d' E0 Hin) as [A | [A [_ B]]]; [left; exact A | right; split; assumption].
+  - destruct (token_step_states d (f_token f) t0 tok d' E0 Hin) as [A | [A [_ B]]]; [left; exact A | right; split; assumption].
   - (* a key-value state: the token file is as the token step left it *)
     destruct (run_svcs_facts _ _ _ _ _ E1) as [A1 _].
     destruct (chain_kvstep_files _ _ _ A1) as [_ F]. rewrite Forall_forall in F.
@@ -556,107 +554,44 @@ Proof.
     destruct t0 as [|x r] eqn:Et0; [left; reflexivity|].
     assert (Hl : In (last_or (x :: r) d) (x :: r)).
     { cbn [last_or]. apply (last_or_In r x). }
-    destruct (token_fix_states d (f_token f) (x :: r) tok _ E0 Hl) as [A | [A [_ B]]]; [left; exact A | right; split; assumption].
+    destruct (token_step_states d (f_token f) (x :: r) tok _ E0 Hl) as [A | [A [_ B]]]; [left; exact A | right; split; assumption].
 Qed.
 
-Lemma token_crash_safe_fixed_any (d' : disk) f' cfg' :
-  token_wf (f_token f') = true ->
-  token_wf (id_token (ident true f' d' cfg')) = true /\
-  d_token (after true f' d' cfg') = Some (id_token (ident true f' d' cfg')).
+Lemma token_crash_safe_proved : token_crash_safe.
 Proof.
-  intro H. split; [apply ident_token_wf_fixed, H | apply start_token_persisted].
+  intros f d cfg d' f' cfg' h Hf Hf' Hh Hin tok.
+  assert (Hw : token_wf tok = true) by (apply ident_token_wf, Hf').
+  assert (Hp : d_token (after f' d' cfg') = Some tok) by apply start_token_persisted.
+  split; [exact Hw | split; [exact Hp | split]].
+  - apply runs_token_const; assumption.
+  - intros t Et Hwt. destruct (crash_state_token f d cfg d' Hin) as [E | [_ E]].
+    + apply start_token_adopted; [congruence | exact Hwt].
+    + rewrite (E t Et) in Hwt. discriminate Hwt.
 Qed.
 
-Lemma token_crash_safe_repaired : token_crash_safe true.
+(* a legacy token file (empty, cut short, or otherwise not a well-formed id) is healed:
+   the start replaces it by its fresh id *)
+Lemma legacy_token_healed f d cfg :
+  (forall b, d_token d = Some b -> token_wf b = false) ->
+  id_token (ident f d cfg) = f_token f /\ d_token (after f d cfg) = Some (f_token f).
 Proof.
-  intros f d cfg d' f' cfg' Hf Hf' Hd Hin.
-  destruct (token_crash_safe_fixed_any d' f' cfg' Hf') as [A B].
-  split; [exact A | split; [exact B|]].
-  intros t Et Hw. destruct (crash_state_token_fixed f d cfg d' Hin) as [E | [_ E]].
-  - apply start_token_adopted; [congruence | intros _; exact Hw].
-  - rewrite (E t Et) in Hw. discriminate Hw.
-Qed.
-
-(* the code as it is: states of the token file along a start *)
-Lemma crash_state_token_cur f d cfg d' :
-  In d' (crash_states false f d cfg) ->
-  d_token d' = d_token d \/
-  (d_token d = None /\ exists k, k <= length (f_token f) /\ d_token d' = Some (firstn k (f_token f))).
-Proof.
-  unfold crash_states. intros [<- | Hin]; [left; reflexivity|].
-  destruct (start_unfold false f d cfg) as [t0 [tok [t1 [its [E0 [E1 E]]]]]]. rewrite E in Hin. cbn [fst] in Hin.
-  cbn [token_step] in E0. unfold token_cur in E0.
-  assert (P : forall x, In x t0 -> d_token d = None /\ exists k, k <= length (f_token f) /\ d_token x = Some (firstn k (f_token f))).
-  { intros x Hx. destruct (d_token d) as [b|] eqn:Ed.
-    - inversion E0; subst t0. contradiction.
-    - split; [reflexivity|]. inversion E0; subst t0 tok. apply in_map_iff in Hx. destruct Hx as [p [<- Hp]].
-      unfold prefixes in Hp. apply in_app_or in Hp. destruct Hp as [Hp | [<- | []]].
-      + apply in_map_iff in Hp. destruct Hp as [k [<- Hk]]. apply in_seq in Hk. exists k. split; [lia | reflexivity].
-      + exists (length (f_token f)). split; [lia | cbn [set_token d_token]; rewrite firstn_all; reflexivity]. }
-  apply in_app_or in Hin. destruct Hin as [Hin | Hin].
-  - right. apply P, Hin.
-  - destruct (run_svcs_facts _ _ _ _ _ E1) as [A1 _].
-    destruct (chain_kvstep_files _ _ _ A1) as [_ F]. rewrite Forall_forall in F.
-    destruct (F d' Hin) as [Ft _]. rewrite Ft.
-    destruct t0 as [|x r] eqn:Et0; [left; reflexivity|].
-    right. apply P. cbn [last_or]. apply (last_or_In r x).
-Qed.
-
-(* outside the defect class (token file left empty or cut short) the code as it is is safe *)
-Lemma token_crash_safe_current_outside f d cfg d' f' cfg' :
-  token_wf (f_token f') = true -> token_settled d -> In d' (crash_states false f d cfg) ->
-  token_settled d' ->
-  token_wf (id_token (ident false f' d' cfg')) = true /\
-  d_token (after false f' d' cfg') = Some (id_token (ident false f' d' cfg')) /\
-  (forall t, d_token d = Some t -> token_wf t = true -> id_token (ident false f' d' cfg') = t).
-Proof.
-  intros Hf' Hd Hin Hd'. split; [|split; [apply start_token_persisted|]].
-  - destruct Hd' as [E | [t [E W]]].
-    + unfold ident, start. cbn [token_step]. unfold token_cur. rewrite E.
-      destruct (run_svcs f' _ cfg'). exact Hf'.
-    + rewrite (start_token_adopted false f' d' cfg' t E); [exact W | intro X; discriminate X].
-  - intros t Et Hw. destruct (crash_state_token_cur f d cfg d' Hin) as [E | [E _]]; [|congruence].
-    apply start_token_adopted; [congruence | intro X; discriminate X].
+  intro H. assert (E : id_token (ident f d cfg) = f_token f).
+  { unfold ident, start. pose proof (token_step_heals d (f_token f) H) as W.
+    destruct (token_step d (f_token f)) as [t0 tok]. cbn [snd] in W.
+    destruct (run_svcs f (last_or t0 d) cfg). exact W. }
+  split; [exact E | rewrite start_token_persisted, E; reflexivity].
 Qed.
 
 Lemma token_wf_length t : token_wf t = true -> length t = 20.
 Proof. unfold token_wf. intro H. apply andb_true_iff in H. destruct H as [H _]. apply Nat.eqb_eq, H. Qed.
 
-(* ... and inside it it is not: EVERY cut-short state is reachable by a kill during the
-   first start, is adopted by the next start and is not a well-formed id *)
-Lemma token_current_every_prefix_adopted f cfg k f' cfg' :
-  token_wf (f_token f) = true -> k < 20 ->
-  exists d', In d' (crash_states false f empty_disk cfg) /\
-             d_token d' = Some (firstn k (f_token f)) /\
-             id_token (ident false f' d' cfg') = firstn k (f_token f) /\
-             token_wf (firstn k (f_token f)) = false.
+(* in particular every proper prefix of an id (what the former in-place write could leave) *)
+Lemma prefix_not_wf t k : token_wf t = true -> k < 20 -> token_wf (firstn k t) = false.
 Proof.
   intros Hw Hk. pose proof (token_wf_length _ Hw) as Hl.
-  exists (set_token empty_disk (Some (firstn k (f_token f)))). split; [|split; [reflexivity | split]].
-  - unfold crash_states. right.
-    destruct (start_unfold false f empty_disk cfg) as [t0 [tok [t1 [its [E0 [E1 ->]]]]]]. cbn [fst].
-    apply in_or_app. left. cbn [token_step] in E0. unfold token_cur in E0. cbn [empty_disk d_token] in E0.
-    inversion E0; subst t0 tok.
-    apply (in_map (fun p => set_token empty_disk (Some p))).
-    unfold prefixes. apply in_or_app. left.
-    apply (in_map (fun k => firstn k (f_token f))). apply in_seq. lia.
-  - apply start_token_adopted; [reflexivity | intro X; discriminate X].
-  - unfold token_wf. rewrite firstn_length, Hl.
-    replace (Nat.min k 20 =? 20) with false; [reflexivity|].
-    symmetry. apply Nat.eqb_neq. lia.
-Qed.
-
-Definition tok0 : bytes := [100;97;117;113;118;50;106;56;100;105;49;50;50;56;100;51;114;109;116;48]%N.
-Definition fresh0 : fresh := mkFresh tok0 (fun _ => [1]%N) (fun _ _ => [2]%N).
-
-Lemma token_crash_safe_current_refuted : ~ token_crash_safe false.
-Proof.
-  intro H.
-  destruct (token_current_every_prefix_adopted fresh0 [] 0 fresh0 []) as [d' [Hin [_ [Ht Hbad]]]];
-    [vm_compute; reflexivity | lia |].
-  destruct (H fresh0 empty_disk [] d' fresh0 []) as [W _];
-    [vm_compute; reflexivity | vm_compute; reflexivity | left; reflexivity | exact Hin |].
-  rewrite Ht in W. rewrite Hbad in W. discriminate W.
+  unfold token_wf. rewrite firstn_length, Hl.
+  replace (Nat.min k 20 =? 20) with false; [reflexivity|].
+  symmetry. apply Nat.eqb_neq. lia.
 Qed.
 
 (* ---------- the checker's predicates follow from agreement with the model ---------- *)
@@ -684,15 +619,16 @@ Proof.
   apply obytes_eqb_eq. apply H. exact E.
 Qed.
 
-Lemma agrees_cons fixed d r rest :
-  agrees fixed d (r :: rest) = true ->
-  id_token (ident fixed (fresh_of r) d (r_cfg r)) = r_token r /\
-  d_token (after fixed (fresh_of r) d (r_cfg r)) = d_token (r_disk r) /\
-  (forall it, kv_get (d_kv (after fixed (fresh_of r) d (r_cfg r))) it = kv_get (d_kv (r_disk r)) it) /\
-  agrees fixed (after fixed (fresh_of r) d (r_cfg r)) rest = true.
+Lemma agrees_cons d r rest :
+  agrees d (r :: rest) = true ->
+  id_token (ident (fresh_of r) d (r_cfg r)) = r_token r /\
+  d_token (after (fresh_of r) d (r_cfg r)) = d_token (r_disk r) /\
+  (forall it, kv_get (d_kv (after (fresh_of r) d (r_cfg r))) it = kv_get (d_kv (r_disk r)) it) /\
+  agrees (after (fresh_of r) d (r_cfg r)) rest = true.
 Proof.
   cbn [agrees]. intro H.
   apply andb_true_iff in H. destruct H as [H H4].
+  apply andb_true_iff in H. destruct H as [H _].
   apply andb_true_iff in H. destruct H as [H _].
   apply andb_true_iff in H. destruct H as [H1 H2].
   unfold disk_eqb in H2.
@@ -702,35 +638,35 @@ Proof.
   split; [apply kv_eqb_eq, Hkv | exact H4].
 Qed.
 
-Lemma agrees_runs_tokens fixed : forall rs d,
-  agrees fixed d rs = true -> map id_token (runs fixed d (history_of rs)) = map r_token rs.
+Lemma agrees_runs_tokens : forall rs d,
+  agrees d rs = true -> map id_token (runs d (history_of rs)) = map r_token rs.
 Proof.
   induction rs as [|r rest IH]; intros d H; [reflexivity|].
-  destruct (agrees_cons fixed d r rest H) as [Ht [_ [_ Hr]]].
+  destruct (agrees_cons d r rest H) as [Ht [_ [_ Hr]]].
   cbn [history_of map runs]. rewrite Ht. f_equal. apply IH, Hr.
 Qed.
 
-Lemma agrees_tokens_persisted fixed : forall rs d,
-  agrees fixed d rs = true -> tokens_persisted rs = true.
+Lemma agrees_tokens_persisted : forall rs d,
+  agrees d rs = true -> tokens_persisted rs = true.
 Proof.
   induction rs as [|r rest IH]; intros d H; [reflexivity|].
-  destruct (agrees_cons fixed d r rest H) as [Ht [Hf [_ Hr]]].
+  destruct (agrees_cons d r rest H) as [Ht [Hf [_ Hr]]].
   unfold tokens_persisted. cbn [forallb]. apply andb_true_iff. split.
   - apply obytes_eqb_eq. rewrite <- Hf, start_token_persisted, Ht. reflexivity.
   - apply (IH _ Hr).
 Qed.
 
-Lemma agrees_tokens_equal fixed rs d :
-  agrees fixed d rs = true -> (fixed = true -> tokens_wf rs = true) -> tokens_equal rs = true.
+Lemma agrees_tokens_equal rs d :
+  agrees d rs = true -> tokens_wf rs = true -> tokens_equal rs = true.
 Proof.
   intros H Hw. destruct rs as [|r0 rest]; [reflexivity|].
-  pose proof (agrees_runs_tokens fixed _ d H) as Hm.
-  assert (HF : fixed = true -> Forall (fun fc => token_wf (f_token (fst fc)) = true) (history_of (r0 :: rest))).
-  { intro E. specialize (Hw E). unfold tokens_wf in Hw. rewrite forallb_forall in Hw.
+  pose proof (agrees_runs_tokens _ d H) as Hm.
+  assert (HF : Forall (fun fc => token_wf (f_token (fst fc)) = true) (history_of (r0 :: rest))).
+  { unfold tokens_wf in Hw. rewrite forallb_forall in Hw.
     apply Forall_forall. intros fc Hin. unfold history_of in Hin. apply in_map_iff in Hin.
     destruct Hin as [r [<- Hr]]. cbn [fst fresh_of f_token]. apply Hw, Hr. }
-  destruct (runs fixed d (history_of (r0 :: rest))) as [|id1 ids] eqn:E; [discriminate Hm|].
-  pose proof (token_stable fixed d _ id1 ids HF E) as St.
+  destruct (runs d (history_of (r0 :: rest))) as [|id1 ids] eqn:E; [discriminate Hm|].
+  pose proof (token_stable d _ id1 ids HF E) as St.
   cbn [map] in Hm. inversion Hm as [[H1 H2]].
   unfold tokens_equal. cbn [forallb]. apply andb_true_iff. split; [apply eqb_bytes_true; reflexivity|].
   apply forallb_forall. intros r Hr. apply eqb_bytes_true.
@@ -738,29 +674,29 @@ Proof.
   destruct Hr as [id [<- Hid]]. rewrite Forall_forall in St. rewrite (St id Hid). exact H1.
 Qed.
 
-Lemma agrees_kv_monotone fixed : forall rs d a,
-  (forall it, kv_get a it = kv_get (d_kv d) it) -> agrees fixed d rs = true ->
+Lemma agrees_kv_monotone : forall rs d a,
+  (forall it, kv_get a it = kv_get (d_kv d) it) -> agrees d rs = true ->
   kv_monotone a (map (fun r => d_kv (r_disk r)) rs) = true.
 Proof.
   induction rs as [|r rest IH]; intros d a Ha H; [reflexivity|].
-  destruct (agrees_cons fixed d r rest H) as [_ [_ [Hkv Hr]]].
+  destruct (agrees_cons d r rest H) as [_ [_ [Hkv Hr]]].
   cbn [map kv_monotone]. apply andb_true_iff. split.
   - apply kv_keeps_intro. intros it v Hg. rewrite <- Hkv.
-    apply (stored_items_kept fixed (fresh_of r) d (r_cfg r)); [apply after_in_crash_states|].
+    apply (stored_items_kept (fresh_of r) d (r_cfg r)); [apply after_in_crash_states|].
     rewrite <- Ha. exact Hg.
-  - apply (IH (after fixed (fresh_of r) d (r_cfg r))); [|exact Hr].
+  - apply (IH (after (fresh_of r) d (r_cfg r))); [|exact Hr].
     intro it. symmetry. apply Hkv.
 Qed.
 
 (* observations that agree with the model cannot trip the token-changed (value part),
    token-not-persisted and stored-item-changed (store part) checks: these checks are
    consequences of the theorems plus correspondence, never stricter than the property *)
-Lemma check_consistent fixed c :
-  agrees fixed (c_disk0 c) (c_runs c) = true -> (fixed = true -> tokens_wf (c_runs c) = true) ->
+Lemma check_consistent c :
+  agrees (c_disk0 c) (c_runs c) = true -> tokens_wf (c_runs c) = true ->
   tokens_equal (c_runs c) = true /\ tokens_persisted (c_runs c) = true /\
   kv_monotone (d_kv (c_disk0 c)) (map (fun r => d_kv (r_disk r)) (c_runs c)) = true.
 Proof.
-  intros H Hw. split; [exact (agrees_tokens_equal fixed _ _ H Hw)|].
-  split; [exact (agrees_tokens_persisted fixed _ _ H)|].
-  apply (agrees_kv_monotone fixed _ (c_disk0 c)); [reflexivity | exact H].
+  intros H Hw. split; [exact (agrees_tokens_equal _ _ H Hw)|].
+  split; [exact (agrees_tokens_persisted _ _ H)|].
+  apply (agrees_kv_monotone _ (c_disk0 c)); [reflexivity | exact H].
 Qed.
